@@ -92,7 +92,7 @@ def F(with_=(), without=(), excl=False, ftc=(), qtc=()):
 # Model families (DESIGN.md section 6).  `consts` instantiate ArkGen; `tiers` override per tier.
 
 ALL_INV = ["NoPanic", "Refines", "AOK", "BIndexOK", "BFreeList", "BSpare", "BTables", "BRelIndex", "BCache",
-           "BCacheIds", "UniqueHandles", "DeadNotTarget", "QueriesExact", "BLock", "BOpenRows"]
+           "BCacheIds", "UniqueHandles", "DeadNotTarget", "QueriesExact", "BLock", "BOpenRows", "BGraph"]
 
 FAMILIES = {
     "core": dict(
@@ -209,8 +209,8 @@ FAMILIES["wide"] = dict(
 DRIVES = {
     "wide": dict(comps=["A", "B", "C", "R"], maxent=20, quick=dict(count=160, len=300), thorough=dict(count=3000, len=500)),
     "rel2": dict(comps=["A", "R", "S"], maxent=14, quick=dict(count=160, len=250), thorough=dict(count=3000, len=400)),
-    "obs": dict(comps=["A", "B", "R"], maxent=8, extra=dict(observers=4), quick=dict(count=300, len=150), thorough=dict(count=6000, len=250)),
-    "obs2": dict(comps=["A", "R", "S"], maxent=8, extra=dict(observers=5), quick=dict(count=300, len=150), thorough=dict(count=6000, len=250)),
+    "obs": dict(comps=["A", "B", "R"], maxent=8, extra=dict(observers=5, obsp=120), quick=dict(count=300, len=150), thorough=dict(count=6000, len=250)),
+    "obs2": dict(comps=["A", "R", "S"], maxent=8, extra=dict(observers=6, obsp=150), quick=dict(count=300, len=150), thorough=dict(count=6000, len=250)),
     "lock": dict(comps=["A", "B", "R"], maxent=10, extra=dict(queries=6, observers=2), quick=dict(count=300, len=200), thorough=dict(count=6000, len=300)),
     "lock64": dict(comps=["A", "R"], maxent=6, extra=dict(queries=62), quick=dict(count=60, len=400), thorough=dict(count=1000, len=600)),
     "reset": dict(comps=["A", "B", "R"], maxent=10, extra=dict(observers=3, resetp=25, stats=True), quick=dict(count=300, len=200), thorough=dict(count=5000, len=300)),
@@ -256,7 +256,7 @@ PLANS = {
 PROP_CFG = {
     "C10": (dict(probes=0, misuse=10), dict(probes=0, misuse=-1)),
 }
-PLANS["C08"] = [("obsmodel", []), ("obs", ["typed1", "unsafe2", "typed11"]), ("drive:obs", ["typed1", "unsafe2", "typed11", "mapt42"]),
+PLANS["C08"] = [("obsmodel", []), ("obsenum", ["typed1", "unsafe2", "mapt1"]), ("obs", ["typed1", "unsafe2", "typed11"]), ("drive:obs", ["typed1", "unsafe2", "typed11", "mapt42"]),
                 ("drive:obs2", ["typed11", "unsafe1", "mapt1"])]
 PLANS["C09"] = [("obs", ["typed1", "unsafe2", "typed11", "mapt1"]), ("drive:obs", ["typed1", "unsafe2", "typed11", "mapt42"]),
                 ("drive:obs2", ["typed11", "unsafe1", "mapt1"])]
@@ -600,6 +600,75 @@ def run_obs_model(ctx):
     ctx.stats["tlc_cmds"].append("tlc -config obs_<event>.cfg MC_obs.tla  # ArkObs, MaxReg=%d, 8 event types" % maxreg)
 
 
+def obsenum_sequences(ctx, path):
+    """Behaviours of the ArkObs state machine as histories for the real world: every ordered choice of <= 3 observers
+    of one event type from a pool of specifications, every order of unregistering some of them, followed by a fixed
+    stimulus script that causes every kind of transition.  Quick tier: a seeded sample."""
+    import itertools, random
+    rnd = random.Random(ctx.seed)
+    comps = ["A", "B", "R"]
+
+    def op(name, **kw):
+        d = dict(op=name, e=0, add=[], rem=[], vals={}, tg={}, n=1, f=0, mode="val", o=0, ev="",
+                 flt={"with": [], "without": [], "excl": False, "ft": {}, "qt": {}},
+                 obs={"ev": "", "obs": [], "with": [], "without": [], "excl": False})
+        d.update(kw)
+        return d
+    allf = {"with": [], "without": [], "excl": False, "ft": {}, "qt": {}}
+    rflt = {"with": ["R"], "without": [], "excl": False, "ft": {}, "qt": {}}
+    stimulus = [
+        op("New"), op("New", add=["A"], vals={"A": 21}), op("New", add=["A", "R"], vals={"A": 31, "R": 33}, tg={"R": 1}),
+        op("New", add=["A", "B"], vals={"A": 41, "B": 42}), op("NewBatch", add=["B", "R"], tg={"R": 0}, n=2, mode="fn"),
+        op("Add", e=2, add=["B"], vals={"B": 22}), op("Add", e=1, add=["R"], vals={"R": 13}, tg={"R": 2}),
+        op("Set", e=2, add=["A"], vals={"A": 26}), op("Set", e=4, add=["A", "B"], vals={"A": 46, "B": 47}),
+        op("SetRel", e=3, tg={"R": 2}), op("SetRel", e=3, tg={"R": 2}), op("Emit", e=4, add=["A"], ev="Custom0"),
+        op("Emit", e=0, ev="Custom0"), op("Exchange", e=4, add=["R"], rem=["B"], vals={"R": 43}, tg={"R": 0}),
+        op("Remove", e=2, rem=["B"]), op("Remove", e=3, rem=["R"]), op("Copy", e=1),
+        op("AddBatch", add=["B"], vals={"B": 90}, mode="fn", flt={"with": ["A"], "without": ["B"], "excl": False, "ft": {}, "qt": {}}),
+        op("SetRelBatch", tg={"R": 2}, mode="fn", flt=rflt), op("RemoveBatch", rem=["B"], mode="fn",
+                                                                 flt={"with": ["B"], "without": [], "excl": False, "ft": {}, "qt": {}}),
+        op("Kill", e=1), op("KillBatch", mode="fn", flt=allf),
+    ]
+    n = 0
+    with open(path, "w") as f:
+        for ev in EVENTS:
+            rel = ev in ("OnAddRelations", "OnRemoveRelations")
+            pool = [dict(ev=ev, obs=[], **{"with": [], "without": [], "excl": False}),
+                    dict(ev=ev, obs=[], **{"with": ["A"], "without": [], "excl": False}),
+                    dict(ev=ev, obs=[], **{"with": ["R"], "without": [], "excl": False}),
+                    dict(ev=ev, obs=(["R"] if rel else ["A"]), **{"with": [], "without": [], "excl": False}),
+                    dict(ev=ev, obs=(["R"] if rel else ["A", "B"]), **{"with": ["B"], "without": [], "excl": False}),
+                    dict(ev=ev, obs=[], **{"with": [], "without": ["A"], "excl": False}),
+                    dict(ev=ev, obs=[], **{"with": ["A"], "without": [], "excl": True})]
+            for k in (1, 2, 3):
+                for regs in itertools.permutations(range(len(pool)), k):
+                    unregs = [()]
+                    for m in range(1, k):
+                        unregs += list(itertools.permutations(range(1, k + 1), m))
+                    for un in unregs:
+                        if ctx.tier == "quick" and rnd.random() > 0.10:
+                            continue
+                        seq = [op("RegO", o=i + 1, obs=pool[r]) for i, r in enumerate(regs)]
+                        seq += [op("UnregO", o=u) for u in un]
+                        f.write(json.dumps(seq + stimulus) + "\n")
+                        n += 1
+    return n
+
+
+def run_obsenum(ctx, cells, probes):
+    d = os.path.join(ctx.work, "model-obsenum")
+    os.makedirs(d, exist_ok=True)
+    for t in glob.glob(os.path.join(SPEC, "*.tla")):
+        shutil.copy(t, d)
+    seqs = os.path.join(d, "seqs.txt")
+    n = obsenum_sequences(ctx, seqs)
+    FAMILIES.setdefault("obsenum", dict(exec=dict(comps=["A", "B", "R"]), tiers=dict(quick=dict(MaxHist=26), thorough=dict(MaxHist=26))))
+    gen = dict(family="obsenum", dir=d, seqs=seqs, nseq=n, generated=0, distinct=0, wall=0, design_violation=None)
+    ctx.stats["families"].append(dict(family="obsenum", sequences=n,
+                                      note="registration / unregistration orders of <= 3 observers per event type (ArkObs behaviours) + stimulus script"))
+    replay_family(ctx, gen, cells, 1000, probes)
+
+
 def choose_cells(ctx, cells):
     if ctx.tier == "thorough" or len(cells) <= 2:
         return cells
@@ -768,6 +837,9 @@ def check_generic(ctx):
         if fam == "obsmodel":
             run_obs_model(ctx)
             continue
+        if fam == "obsenum":
+            run_obsenum(ctx, choose_cells(ctx, cells), 1)
+            continue
         if fam.startswith("drive:"):
             drive_family(ctx, fam[6:], cells, pc.get("probes", 0),
                          extra_cfg={k: v for k, v in pc.items() if k != "probes"})
@@ -793,7 +865,7 @@ def check_generic(ctx):
             continue
         ctx.stats["sequences"] += gen["nseq"]
         # quick tier: replay a seed-chosen sample of the transitions sized to the budget
-        nbfs = max(1, len([1 for f, _ in plan if not f.startswith("drive:") and f != "obsmodel"]))
+        nbfs = max(1, len([1 for f, _ in plan if not f.startswith("drive:") and f not in ("obsmodel", "obsenum")]))
         budget = (400000 // nbfs) if quick else 10 ** 9   # events per family
         cs = choose_cells(ctx, cells)
         per_seq = FAMILIES[fam]["tiers"][ctx.tier]["MaxHist"] + 7
@@ -1048,6 +1120,27 @@ def check_c20(ctx):
                               dict(stats=True, misuse=8, qmis=True))
     sources += driven_sources(ctx, bins[0][1], ["wide", "lock"], 8 if quick else 200, "unsafe1", dict(misuse=8, qmis=True))
     product_check(ctx, "C20", variants, sources, "c20")
+    # registries up to 64 types (the tiny limit) behave the same in every build
+    d = os.path.join(ctx.work, "prod-c20reg")
+    os.makedirs(d, exist_ok=True)
+    shutil.copy(os.path.join(SPEC, "ArkProd.tla"), d)
+    logs = []
+    for name, b in bins:
+        lp = os.path.join(d, "reg-%s.ndjson" % name)
+        cfg = dict(path="unsafe", caps=[4, 2], comps=[], seed=ctx.seed, regmax=64)
+        p, dt = run([b, "-registry", "2" if quick else "10", "-len", "40", "-out", lp, "-cfg", json.dumps(cfg)], 600)
+        if p.returncode != 0:
+            raise Inconclusive("registry run failed:\n" + p.stdout[-1500:])
+        logs.append(lp)
+    for i, other in enumerate(logs[1:], 1):
+        out = os.path.join(d, "prod-reg-%d.ndjson" % i)
+        n, same = zip_logs([logs[0], other], "C20", out)
+        v = run_prod_monitor(ctx, out)
+        ctx.stats["events"] += v["lines"]
+        if not same:
+            ctx.violations.append(dict(cls="C20.shape", detail="registry logs differ in length", line=0, ops=None, cfg={}, family="c20reg", cell=bins[i][0]))
+        for vi in v["viol"]:
+            ctx.violations.append(dict(cls=vi["cls"], detail=vi["d"], line=vi["l"], ops=None, cfg=dict(regmax=64), family="c20reg", cell=bins[i][0]))
     return finish(ctx, "product traces of the four build configurations")
 
 
